@@ -55,6 +55,16 @@ def make_object(st, rec, case, name):
     return ("o", oid)
 
 
+# per-function parameter contracts (the documented calling convention), one line of reason each
+SPECS = {
+    "spiftool_safe_strncpy": {"dest": ("buf", "size"), "src": ("cstr",)},      # dest has room for `size` bytes
+    "spiftool_safe_strncat": {"dest": ("buf", "size"), "src": ("cstr",)},      # dest is a buffer of `size` bytes
+    "spiftool_safe_str": {"str": ("buf", "len")},                              # str holds `len` bytes
+    "spiftool_hex_dump": {"buff": ("buf", "count")},
+    "memrec_add_var": {"filename": ("cstr",)},
+}
+
+
 def entry_states(fn, max_cases=8, alias=True):
     """cartesian product of representation cases of the value-class parameters"""
     states = [State()]
@@ -84,6 +94,17 @@ def entry_states(fn, max_cases=8, alias=True):
                 oid = fresh("O_" + p["n"] + "_")
                 st.objs[oid] = rec
                 st.env[p["d"]] = ("o", oid)
+                nxt.append(st)
+            elif p.get("tp") and p["n"] in SPECS.get(fn.name, {}):
+                spec = SPECS[fn.name][p["n"]]
+                if spec[0] == "cstr":
+                    n_ = fresh(p["n"] + "_strlen")
+                    st.cons.append(Lin.sym(n_))
+                    rid = st.new_region("cstr", Lin.sym(n_) + 1, Lin.sym(n_), "string " + p["n"])
+                    st.regions[rid].nul = Lin.sym(n_)
+                    st.env[p["d"]] = P(rid, 0)
+                else:
+                    st.env[p["d"]] = ("buf-of", spec[1])
                 nxt.append(st)
             elif p.get("tp") and fn.unit.name == "mbuff.c":
                 # byte buffers travel with an explicit length: capacity unknown, only the lower bound is checked
@@ -116,6 +137,18 @@ def entry_states(fn, max_cases=8, alias=True):
                 st.env[p["d"]] = UNK
                 nxt.append(st)
         states = nxt
+    # buffers whose capacity is another parameter
+    for st in states:
+        for p in fn.params:
+            v = st.env.get(p["d"])
+            if isinstance(v, tuple) and v and v[0] == "buf-of":
+                sz = None
+                for q in fn.params:
+                    if q["n"] == v[1]:
+                        sz = st.env.get(q["d"])
+                cap = sz[1] if sz is not None and sz[0] == "i" else None
+                rid = st.new_region("heap", cap, None, "buffer %s[%s]" % (p["n"], v[1]))
+                st.env[p["d"]] = P(rid, 0)
     return states
 
 
